@@ -1131,53 +1131,53 @@ func c20ExprVerbatim(c *Ctx) {
 			continue
 		}
 		for _, xf := range c.P.expandedFuncs(fn) {
-		for _, b := range xf.Blocks {
-			for _, ins := range b.Instrs {
-				st, ok := ins.(*ssa.Store)
-				if !ok || !isNamed(st.Val.Type(), modPath, "Expression") {
-					continue
-				}
-				n++
-				c.Sites++
-				bad := ""
-				var judge func(v ssa.Value, d int)
-				judge = func(v ssa.Value, d int) {
-					for _, o := range originsOf(v, nil) {
-						switch x := o.(type) {
-						case *ssa.UnOp:
-							// a load of a field / element
-						case *ssa.Field, *ssa.Index, *ssa.Extract:
-							if ex, ok := x.(*ssa.Extract); ok {
-								if _, isCall := ex.Tuple.(*ssa.Call); isCall {
-									bad = describeOrigin(o)
+			for _, b := range xf.Blocks {
+				for _, ins := range b.Instrs {
+					st, ok := ins.(*ssa.Store)
+					if !ok || !isNamed(st.Val.Type(), modPath, "Expression") {
+						continue
+					}
+					n++
+					c.Sites++
+					bad := ""
+					var judge func(v ssa.Value, d int)
+					judge = func(v ssa.Value, d int) {
+						for _, o := range originsOf(v, nil) {
+							switch x := o.(type) {
+							case *ssa.UnOp:
+								// a load of a field / element
+							case *ssa.Field, *ssa.Index, *ssa.Extract:
+								if ex, ok := x.(*ssa.Extract); ok {
+									if _, isCall := ex.Tuple.(*ssa.Call); isCall {
+										bad = describeOrigin(o)
+									}
 								}
-							}
-						case *ssa.Parameter:
-						case *ssa.Call:
-							k := staticCallee(&x.Call)
-							if k == nil || !inModule(k) || len(k.Blocks) == 0 || d > 2 || len(k.Params) == 0 {
-								bad = describeOrigin(o)
-								continue
-							}
-							for _, kb := range k.Blocks {
-								if r, ok := kb.Instrs[len(kb.Instrs)-1].(*ssa.Return); ok && len(r.Results) == 1 {
-									for _, ro := range originsOf(r.Results[0], nil) {
-										if _, isParam := ro.(*ssa.Parameter); !isParam {
-											bad = "result of " + FuncName(k) + ", which does not always return its argument"
+							case *ssa.Parameter:
+							case *ssa.Call:
+								k := staticCallee(&x.Call)
+								if k == nil || !inModule(k) || len(k.Blocks) == 0 || d > 2 || len(k.Params) == 0 {
+									bad = describeOrigin(o)
+									continue
+								}
+								for _, kb := range k.Blocks {
+									if r, ok := kb.Instrs[len(kb.Instrs)-1].(*ssa.Return); ok && len(r.Results) == 1 {
+										for _, ro := range originsOf(r.Results[0], nil) {
+											if _, isParam := ro.(*ssa.Parameter); !isParam {
+												bad = "result of " + FuncName(k) + ", which does not always return its argument"
+											}
 										}
 									}
 								}
+							default:
+								bad = describeOrigin(o)
 							}
-						default:
-							bad = describeOrigin(o)
 						}
 					}
+					judge(st.Val, 0)
+					c.Check(bad == "", "exprmap.verbatim", FuncName(fn)+":store[Expression]", st.Pos(), "the child expression itself",
+						"the static view hands out an expression that is the "+bad+", not the node's own child expression: evaluating the pair's key or value no longer gives what evaluating the whole constructor gives")
 				}
-				judge(st.Val, 0)
-				c.Check(bad == "", "exprmap.verbatim", FuncName(fn)+":store[Expression]", st.Pos(), "the child expression itself",
-					"the static view hands out an expression that is the "+bad+", not the node's own child expression: evaluating the pair's key or value no longer gives what evaluating the whole constructor gives")
 			}
-		}
 		}
 	}
 	c.Floor("exprmap.verbatim stores", n, 3, "Key, Value and list elements")
@@ -1219,50 +1219,50 @@ func unknownBodyTyped(c *Ctx) {
 			return false
 		}
 		for _, xf := range c.P.expandedFuncs(fn) {
-		if typedDone[xf] {
-			continue
-		}
-		typedDone[xf] = true
-		for _, b := range xf.Blocks {
-			for _, ins := range b.Instrs {
-				if !isTest(ins) || !inLoop(b) {
-					continue
-				}
-				n++
-				c.Sites++
-				c.Fn(FuncName(fn))
-				typed := false
-				for _, ce := range ctlEdges(b) {
-					bo, ok := ce.iff.Cond.(*ssa.BinOp)
-					if !ok || !isBasicString(bo.X.Type()) {
+			if typedDone[xf] {
+				continue
+			}
+			typedDone[xf] = true
+			for _, b := range xf.Blocks {
+				for _, ins := range b.Instrs {
+					if !isTest(ins) || !inLoop(b) {
 						continue
 					}
-					has := func(v ssa.Value, f string) bool {
-						for fv := range fieldTrail(v) {
-							if fv.Name() == f {
+					n++
+					c.Sites++
+					c.Fn(FuncName(fn))
+					typed := false
+					for _, ce := range ctlEdges(b) {
+						bo, ok := ce.iff.Cond.(*ssa.BinOp)
+						if !ok || !isBasicString(bo.X.Type()) {
+							continue
+						}
+						has := func(v ssa.Value, f string) bool {
+							for fv := range fieldTrail(v) {
+								if fv.Name() == f {
+									return true
+								}
+							}
+							return false
+						}
+						isName := func(v ssa.Value) bool {
+							if has(v, "TypeName") {
 								return true
 							}
+							_, isParam := v.(*ssa.Parameter) // a helper that is handed the spec's type name
+							return isParam
 						}
-						return false
-					}
-					isName := func(v ssa.Value) bool {
-						if has(v, "TypeName") {
-							return true
+						if !((has(bo.X, "Type") && isName(bo.Y)) || (has(bo.Y, "Type") && isName(bo.X))) {
+							continue
 						}
-						_, isParam := v.(*ssa.Parameter) // a helper that is handed the spec's type name
-						return isParam
+						if (bo.Op == token.NEQ && !ce.onTrue) || (bo.Op == token.EQL && ce.onTrue) {
+							typed = true
+						}
 					}
-					if !((has(bo.X, "Type") && isName(bo.Y)) || (has(bo.Y, "Type") && isName(bo.X))) {
-						continue
-					}
-					if (bo.Op == token.NEQ && !ce.onTrue) || (bo.Op == token.EQL && ce.onTrue) {
-						typed = true
-					}
+					c.Check(typed, "unknownbody.typed", FuncName(fn)+":test[UnknownBody]", ins.Pos(), "only for blocks of the spec's own type",
+						"the UnknownBody test is made for every block of the content, whatever its type: a dynamic block of another type with an unknown for_each makes this spec's (fully known) blocks decode as unknown")
 				}
-				c.Check(typed, "unknownbody.typed", FuncName(fn)+":test[UnknownBody]", ins.Pos(), "only for blocks of the spec's own type",
-					"the UnknownBody test is made for every block of the content, whatever its type: a dynamic block of another type with an unknown for_each makes this spec's (fully known) blocks decode as unknown")
 			}
-		}
 		}
 	}
 	c.Floor("unknownbody.typed tests in loops", n, 4, "list, tuple, set, map and object block specs (a shared helper may serve two)")
